@@ -144,6 +144,9 @@ func runUnit(w *world.World, u unit, disk map[string][]byte, faults map[string]s
 	imports := map[string]*types.Package{}
 	tc := &types.Config{
 		Importer: importerFunc(func(path string) (*types.Package, error) {
+			if path == "unsafe" {
+				return types.Unsafe, nil // never compiled, never vetted: no export data, no fact file
+			}
 			data, ok := state.Export[path]
 			if u.xtest && path == p.Path {
 				if dt, okt := state.ExportTest[path]; okt {
@@ -274,7 +277,7 @@ func runUnit(w *world.World, u unit, disk map[string][]byte, faults map[string]s
 				TypesInfo:  info,
 				TypesSizes: tc.Sizes,
 				ResultOf:   inputs,
-				Module:     &analysis.Module{Path: w.Module},
+				Module:     moduleFor(w, u.idx),
 				Report: func(d analysis.Diagnostic) {
 					simrt.Yield(siteReport)
 					st.bump(&st.Reports)
